@@ -40,14 +40,16 @@ type forgedRequest struct {
 }
 
 type world struct {
-	e       *core.Env
-	tp      *core.Tape
-	cn      *simnet.ConnNet
-	S       [2]*linkpair.Stack // 0 = first, 1 = second
-	compat  bool               // honest handshake is expected to complete
-	mayLink [2]bool            // config allows end i to register a link at all
-	old     [2][][]byte        // handshake records of the clean connection, by sending stack
-	desc    string
+	e         *core.Env
+	tp        *core.Tape
+	cn        *simnet.ConnNet
+	S         [2]*linkpair.Stack // 0 = first, 1 = second
+	compat    bool               // honest handshake is expected to complete
+	mayLink   [2]bool            // config allows end i to register a link at all
+	old       [2][][]byte        // handshake records of the clean connection, by sending stack
+	prev      [2][][]byte        // ... and of the most recent completed honest connection
+	prevValid bool
+	desc      string
 }
 
 // cleanupAttempt closes both ends and makes sure nothing stays registered.
@@ -196,10 +198,25 @@ func run(e *core.Env) {
 	kinds := []string{"flip", "flip", "flip", "truncate", "drop", "dup", "swap", "replay_old", "reflect", "forge", "eof", "ioerr", "length", "none"}
 	for k := 0; k < nAttempts; k++ {
 		e.Step()
-		// Reconnects are spaced like the shipped connect manager spaces them (>= 1 s).
-		time.Sleep(time.Second + time.Duration(tp.Intn(3000))*time.Millisecond)
+		// Reconnects are spaced like the shipped connect manager spaces them (>= 1 s) - except
+		// for quick ones: a few milliseconds after a completed honest connection the pair
+		// connects again and the adversary substitutes the corresponding record of that
+		// immediately preceding connection (whether an honest quick reconnect completes is
+		// not judged: message timestamps may legitimately still be ahead of the clock).
+		quick := w.prevValid && tp.Chance(1, 5)
+		if quick {
+			time.Sleep(time.Duration(2+tp.Intn(95)) * time.Millisecond)
+			e.Probe("quick_reconnect")
+		} else {
+			time.Sleep(time.Second + time.Duration(tp.Intn(3000))*time.Millisecond)
+		}
 		cli := tp.Intn(2)
 		kind := kinds[tp.Intn(len(kinds))]
+		if quick {
+			kind = []string{"replay_prev", "replay_prev", "replay_prev", "none"}[tp.Intn(4)]
+		}
+		w.cn.KeepLog = true
+		w.cn.Written = nil
 		victimDir := tp.Intn(2) // direction whose records are attacked: 0 client->server
 		idx := 1 + tp.Intn(3)   // which handshake record of that direction
 		// The victim is the end that reads the attacked direction.
@@ -300,10 +317,13 @@ func run(e *core.Env) {
 					exempt = true
 				}
 				e.Fault("dup")
-			case "replay_old":
+			case "replay_old", "replay_prev":
 				// The corresponding record of the earlier connection of this
 				// pair (same direction relative to the roles then).
 				src := w.old[1-victim] // what the peer sent in the earlier connection
+				if kind == "replay_prev" {
+					src = w.prev[1-victim]
+				}
 				if len(src) >= idx {
 					w.cn.Remove(r)
 					w.cn.DeliverBytes(victimEnd(att, victimDir), append([]byte(nil), src[idx-1]...), false)
@@ -403,11 +423,31 @@ func run(e *core.Env) {
 					w.desc, w.S[victim].Node.Name, w.S[1-victim].Node.Name, what)
 			}
 			e.Probe("tampered_attempt_left_no_link")
-		} else if w.compat && !fired {
+		} else if w.compat && !fired && !quick {
 			if !w.linked(0) || !w.linked(1) {
 				e.Fail("honest-handshake-fails", "%s: repeated fault-free handshake (attempt %d) did not complete", w.desc, k)
 			}
 		}
+		// Keep the transcript of a completed honest connection for a quick reconnect.
+		w.prevValid = false
+		if !fired && w.linked(0) && w.linked(1) {
+			w.prev = [2][][]byte{}
+			for _, r := range w.cn.Written {
+				if r.Conn != att.Pair || r.EOF {
+					continue
+				}
+				sender := cli
+				if r.Dir == 1 {
+					sender = 1 - cli
+				}
+				if len(w.prev[sender]) < 3 {
+					w.prev[sender] = append(w.prev[sender], r.Data)
+				}
+			}
+			w.prevValid = len(w.prev[0]) == 3 && len(w.prev[1]) == 3
+		}
+		w.cn.KeepLog = false
+		w.cn.Written = nil
 		w.cleanupAttempt(att)
 	}
 
